@@ -352,6 +352,7 @@ func init() {
 		sloSuite(c, func(c *Ctx, r *SloRun) { monC13(c, r); monC09slo(c, r); monC07slo(c, r) }, "all monitors")
 	}
 	props["C13"] = func(c *Ctx) {
+		buildersDiff(c)
 		sloSuite(c, monC13, "Monitor: decoded LogoutResponse (status, InResponseTo, Issuer, Destination), form action and RelayState of the reply.")
 	}
 }
